@@ -29,7 +29,7 @@ var subIngest = evid.Register("ingest", runIngest)
 func TestPropIngest(t *testing.T) {
 	rapid.Check(t, func(t *rapid.T) {
 		c := Case{
-			Table: gen.GenTable(t, gen.TableOpts{MaxCols: 6, MaxRows: evid.Scale(600, 800), Boundary: true, MaxBig: 3}, "t"),
+			Table: gen.GenTable(t, gen.TableOpts{MaxCols: 6, MaxRows: evid.Scale(600, 800), Boundary: true, MaxBig: 3, DupNames: true}, "t"),
 			Cfg:   ingestx.GenConfig(t, "cfg"),
 		}
 		subIngest.Check(t, c)
